@@ -1,7 +1,7 @@
 """Helpers shared by the rule modules: cached elaboration, definition expansion, role discovery."""
 from .elab import elaborate, eval_function, Elab
 from .values import *
-from .term import key, conj, disj, literal, lkey, litset, support, lin, lin_eq, lin_diff, lin_ge, Lin, subterms, resolve_phi
+from .term import as_disj, key, conj, disj, literal, lkey, litset, support, lin, lin_eq, lin_diff, lin_ge, Lin, subterms, resolve_phi
 from .report import AnalysisError
 
 _cache = {}
